@@ -115,6 +115,68 @@ def row_aggregate(it, kind, seq, st):
     return None
 
 
+def running_extreme(repo, module, fn, cls=None):
+    """The explicit running-minimum / maximum idiom over a list of rows P::
+
+        m = len(P[r0][c0]);  for row in P | P[k:]:  for s in row:  if len(s) < m: m = len(s);  return m
+
+    Returns (kind, full): kind 'min' / 'max' by the direction of the comparison, full = every row is scanned (k == 0);
+    None if the function is not this idiom."""
+    params = astq.param_names(fn)
+    if cls is not None and not cls.is_static(fn.name):
+        params = params[1:]
+    body = [st for st in fn.body if not (isinstance(st, ast.Expr) and isinstance(st.value, ast.Constant))]
+    if len(params) != 1 or len(body) != 3:
+        return None
+    P = params[0]
+    a0, loop, ret = body
+
+    def is_len(e, of=None):
+        ok = isinstance(e, ast.Call) and isinstance(e.func, ast.Name) and e.func.id == "len" and len(e.args) == 1 and not e.keywords \
+            and repo.resolve_name(module, "len") is None
+        return ok and (of is None or isinstance(e.args[0], ast.Name) and e.args[0].id == of)
+
+    if not (isinstance(a0, ast.Assign) and len(a0.targets) == 1 and isinstance(a0.targets[0], ast.Name) and is_len(a0.value)):
+        return None
+    m = a0.targets[0].id
+    cell = a0.value.args[0]
+    if not (isinstance(cell, ast.Subscript) and isinstance(cell.value, ast.Subscript) and isinstance(cell.value.value, ast.Name)
+            and cell.value.value.id == P and isinstance(cell.slice, ast.Constant) and isinstance(cell.value.slice, ast.Constant)):
+        return None
+    if not (isinstance(ret, ast.Return) and isinstance(ret.value, ast.Name) and ret.value.id == m):
+        return None
+    if not (isinstance(loop, ast.For) and isinstance(loop.target, ast.Name) and not loop.orelse and len(loop.body) == 1):
+        return None
+    start = None
+    if isinstance(loop.iter, ast.Name) and loop.iter.id == P:
+        start = 0
+    elif isinstance(loop.iter, ast.Subscript) and isinstance(loop.iter.value, ast.Name) and loop.iter.value.id == P \
+            and isinstance(loop.iter.slice, ast.Slice) and loop.iter.slice.upper is None and loop.iter.slice.step is None:
+        lo = loop.iter.slice.lower
+        start = 0 if lo is None else (lo.value if isinstance(lo, ast.Constant) and isinstance(lo.value, int) and lo.value >= 0 else None)
+    inner = loop.body[0]
+    if start is None or not (isinstance(inner, ast.For) and isinstance(inner.target, ast.Name) and isinstance(inner.iter, ast.Name)
+                             and inner.iter.id == loop.target.id and not inner.orelse and len(inner.body) == 1):
+        return None
+    test = inner.body[0]
+    sname = inner.target.id
+    if not (isinstance(test, ast.If) and not test.orelse and len(test.body) == 1 and isinstance(test.test, ast.Compare)
+            and len(test.test.ops) == 1):
+        return None
+    upd = test.body[0]
+    if not (isinstance(upd, ast.Assign) and len(upd.targets) == 1 and isinstance(upd.targets[0], ast.Name) and upd.targets[0].id == m
+            and is_len(upd.value, sname)):
+        return None
+    l_, r_, op = test.test.left, test.test.comparators[0], test.test.ops[0]
+    if is_len(l_, sname) and isinstance(r_, ast.Name) and r_.id == m:
+        kind = "min" if isinstance(op, (ast.Lt, ast.LtE)) else ("max" if isinstance(op, (ast.Gt, ast.GtE)) else None)
+    elif is_len(r_, sname) and isinstance(l_, ast.Name) and l_.id == m:
+        kind = "min" if isinstance(op, (ast.Gt, ast.GtE)) else ("max" if isinstance(op, (ast.Lt, ast.LtE)) else None)
+    else:
+        kind = None
+    return (kind, start == 0) if kind else None
+
+
 def helper_aggregate(repo, module, fn, cls=None):
     """What a length helper computes on the list of all rows of a panel P: 'max' / 'min' (of all cell lengths) or a
     description of something else / None when it cannot be interpreted."""
@@ -134,6 +196,9 @@ def helper_aggregate(repo, module, fn, cls=None):
     traces, _ = it.run_function(Frame(module, fn, cls, cls), args, State())
     vals = [x for _, x in distinct_returns(traces)]
     if len(vals) != 1 or not isinstance(vals[0], Lin):
+        re_ = running_extreme(repo, module, fn, cls)
+        if re_ is not None:
+            return re_[0] if re_[1] else "%slen(part of P): the scan starts after the first row, of which only one cell is measured" % re_[0]
         return None
     for k in ("max", "min"):
         if vals[0] == Lin.sym("%slen(P)" % k):
@@ -198,6 +263,26 @@ def hooks(it, frame, call, fname, args, kwargs, st):
         a = args[0] if args else None
         if isinstance(a, Src):
             return Arr("time_index(%s)" % a.name, Lin.sym("m(%s)" % a.name), "index")
+    callee = None
+    if sym_ is not None and sym_.kind == "func":
+        callee = (sym_.module, sym_.target, None)
+    elif isinstance(call.func, ast.Attribute):
+        rv = it.ev(call.func.value, st, frame)
+        if isinstance(rv, SelfV) and rv.cls is not None:
+            hit_ = it.repo.lookup_method(rv.cls, call.func.attr)
+            if hit_ is not None:
+                callee = (hit_[0].module, hit_[1], hit_[0])
+    if callee is not None and len(args) == 1 and not kwargs:
+        panel_ = all_rows_panel(args[0])
+        if panel_ is not None:
+            re_ = running_extreme(it.repo, callee[0], callee[1], callee[2])
+            if re_ is not None:
+                kind_, full_ = re_
+                if full_:
+                    it.__dict__.setdefault("measures", set()).add("%slen(%s)" % (kind_, panel_.name))
+                    return Lin.sym("%slen(%s)" % (kind_, panel_.name))
+                it.__dict__.setdefault("partial", set()).add("%slen(%s)" % (kind_, panel_.name))
+                return Lin.sym("%slen(part of %s)" % (kind_, panel_.name))
     ext_ = it.ext_name(fname, frame)
     if ext_ in ("builtins.max", "builtins.min") and len(args) == 1 and not kwargs:
         r = row_aggregate(it, ext_[-3:], args[0], st)
@@ -813,30 +898,62 @@ def r1_interpolate(ctx, repo):
             ctx.check(ok, "R1", c + ":target-grid", "target grid = linspace(0, 1, self.length): same end points, requested length",
                       "target grid is %r; expected %r points sharing the end points of the source grid %r" % (g, LEN, xs), loc)
     cell_state(ctx, c + ":cell-state", it, loc)
-    # cell-wise application chain
-    for meth, arg, target in (("_resize_col", Src("coll", "series"), "_resize_cell"), ("transform", Src("X", "raw"), "_resize_col")):
+    # cell-wise application chain: transform applies, column by column, a function that applies _resize_cell to every cell
+    it = mk_interp(repo)
+    sv = SelfV(cls)
+    sv.attrs.update(length=LEN)
+    tf = cls.methods.get("transform")
+    if tf is None:
+        raise AnalysisError("anchor missing: TSInterpolator.transform")
+    Xr = Src("X", "raw")
+    traces, fst, k, fn = run_method(repo, it, sv, "transform", {"X": Xr})
+    tloc = ctx.loc(mod, fn)
+    s, ret = one_return(ctx, "R1", "TSInterpolator.transform:apply", traces, tloc)
+    if ret is not None:
+        ok = None
+        if isinstance(ret, CallV) and ret.name == "apply" and isinstance(ret.recv, Src) and ret.recv.name == "X":
+            extra = {k_: v_ for k_, v_ in ret.kwargs.items() if k_ != "func"}
+            if extra.get("axis") in (ZERO, K("index")):
+                extra.pop("axis")
+            colf = ret.arg(0, "func")
+            probe_col = Src("col", "series", [sym("n(X)")])
+            fr = Frame(k.module, fn, cls, k)
+            v = it.call_value(colf, [probe_col], {}, None, State(), fr) if isinstance(colf, (LamV, LocalFn, BoundM)) else NotImplemented
+            if v is not NotImplemented and isinstance(v, CallV) and v.name == "apply" and v.recv == probe_col \
+                    and not (set(v.kwargs) - {"func"}) and len(v.args) <= 1:
+                fsame = same_function(it, v.arg(0, "func"), BoundM(sv, "_resize_cell"), Src("probe", "series", [sym("Lp")]), fr)
+                ok = fsame if fsame is None else (fsame and not extra and len(ret.args) <= 1)
+            elif v is not NotImplemented and isinstance(v, CallV) and v.name == "apply" and v.recv == probe_col:
+                ok = False  # the per-cell function receives extra arguments shared by all cells of the column
+            elif v is not NotImplemented and not any(isinstance(x, (LamV, LocalFn, BoundM)) for x in walk(v)):
+                ok = False
+        ctx.check(ok, "R1", "TSInterpolator.transform:apply", "every cell of every column goes through self._resize_cell",
+                  "transform returns %r, expected X.apply(column -> column.apply(self._resize_cell))" % (ret,), tloc)
+    # (H4) the requested length is read when a cell is resized, not frozen at construction: build the instance through
+    # __init__ with one value of the option, change the option (set_params) and resize a cell
+    init = repo.lookup_method(cls, "__init__")
+    if init is not None and "length" in astq.param_names(init[1]):
         it = mk_interp(repo)
         sv = SelfV(cls)
-        sv.attrs.update(length=LEN)
-        pname = astq.param_names(cls.methods[meth], skip_self=True)[0] if meth in cls.methods else None
-        if pname is None:
-            raise AnalysisError("anchor missing: TSInterpolator.%s" % meth)
-        traces, fst, k, fn = run_method(repo, it, sv, meth, {pname: arg})
-        s, ret = one_return(ctx, "R1", "TSInterpolator.%s:apply" % meth, traces, ctx.loc(mod, fn))
-        if ret is None:
-            continue
-        ok = None
-        if isinstance(ret, CallV) and ret.name == "apply":
-            recv = ret.recv
-            same = isinstance(recv, Src) and recv.name == arg.name
-            fobj = ret.arg(0, "func")
-            extra = {k_: v_ for k_, v_ in ret.kwargs.items() if k_ != "func"}
-            if meth == "transform" and extra.get("axis") in (ZERO, K("index")):
-                extra.pop("axis")
-            fsame = same_function(it, fobj, BoundM(sv, target), Src("probe", "series", [sym("Lp")]), Frame(k.module, fn, cls, k))
-            ok = fsame if fsame is None else (same and fsame and not extra and len(ret.args) <= 1)
-        ctx.check(ok, "R1", "TSInterpolator.%s:apply" % meth, "%s applies self.%s to every element" % (meth, target),
-                  "%s returns %r, expected <input>.apply(self.%s)" % (meth, ret, target), ctx.loc(mod, fn))
+        L0 = sym("length@init")
+        pre = Facts()
+        pre.add_cmp(L0, ">=", 1, "a valid length")
+        it.run_function(Frame(init[0].module, init[1], cls, init[0]), {"self": sv, "length": L0}, State(facts=pre))
+        sv.attrs["length"] = LEN  # set_params(length=...)
+        cell2 = Src("cell", "series", [L])
+        st0 = State()
+        for nm, val in sv.attrs.items():
+            st0.heap[(id(sv), nm)] = val
+        hit = repo.lookup_method(cls, "_resize_cell")
+        traces, _ = it.run_function(Frame(hit[0].module, hit[1], cls, hit[0]), {"self": sv, "cell": cell2}, st0)
+        vals = [v for _, v in distinct_returns(traces)]
+        stale = [x for v in vals for x in walk(v) if isinstance(x, Lsp) and any("length@init" in y for y in (as_lin_val(x.num).symbols()
+                                                                                    if as_lin_val(x.num) is not None else ()))]
+        ctx.check(None if not vals else not stale, "R1", "TSInterpolator._resize_cell:length-at-use",
+                  "the target grid is built from the current value of the length option",
+                  "the target grid %r was computed in __init__ from the constructor argument: after set_params(length=...) (or "
+                  "clone + set_params) cells are still resized to the old length" % (stale[:1],), ctx.loc(hit[0].module, hit[1]),
+                  witness={"history": "TSInterpolator(5).set_params(length=9).fit_transform(X) returns cells of length 5"})
 
 
 def same_function(it, f, g, probe, frame):
